@@ -356,11 +356,19 @@ impl Storage {
             }
         }
 
+        // The min filtered block number has to be updated atomically with the scripts;
+        // otherwise, if the process is killed in the middle, the blocks before the previous
+        // min filtered block number will never be filtered for the new scripts.
+        if let Some(min_number) = min_block_number {
+            batch
+                .put(
+                    Key::Meta(MIN_FILTERED_BLOCK_NUMBER).into_vec(),
+                    min_number.to_le_bytes(),
+                )
+                .expect("batch put should be ok");
+        }
         batch.commit().expect("batch commit should be ok");
 
-        if let Some(min_number) = min_block_number {
-            self.update_min_filtered_block_number(min_number);
-        }
         self.clear_matched_blocks();
 
         if should_filter_genesis_block {
